@@ -194,6 +194,25 @@ func genC17(t *rapid.T) c17Case {
 	} else {
 		mods = genAnyModules(t)
 	}
+	if rapid.IntRange(0, 39).Draw(t, "deepchain") == 0 {
+		// a long dependency chain (every module reads the previous one; sometimes the one before too): whatever
+		// is computed per module with its ancestors must stay polynomial
+		n := rapid.IntRange(20, 95).Draw(t, "chainlen")
+		g := gdsl.Graph{Bins: []gdsl.Bin{{Type: "wasm/rust-v1", Content: "code"}}}
+		for i := 0; i < n; i++ {
+			m := gdsl.Mod{Name: fmt.Sprintf("m%d", i), Kind: "map", Entry: fmt.Sprintf("m%d", i)}
+			if i == 0 {
+				m.Inputs = []gdsl.In{{T: "source", Ref: gdsl.BlockType}}
+			} else {
+				m.Inputs = []gdsl.In{{T: "map", Ref: fmt.Sprintf("m%d", i-1)}}
+				if i > 1 && i%3 == 0 {
+					m.Inputs = append(m.Inputs, gdsl.In{T: "map", Ref: fmt.Sprintf("m%d", i-2)})
+				}
+			}
+			g.Mods = append(g.Mods, m)
+		}
+		mods = g.PB()
+	}
 	names := []string{"", "ghost", "a"}
 	if mods != nil {
 		for _, m := range mods.Modules {
